@@ -966,6 +966,9 @@ func (a *action) probeLeaf(where string, leaf virtual.Leaf, data []byte) (bool, 
 	a.h("probe-chown", statusName(leaf.VirtualSetAttributes(e.ctx, (&virtual.Attributes{}).SetOwnerUserID(0).SetOwnerGroupID(0), maskCompare, &out2)))
 	var out3 virtual.Attributes
 	a.h("probe-chgrp", statusName(leaf.VirtualSetAttributes(e.ctx, (&virtual.Attributes{}).SetOwnerGroupID(7), maskCompare, &out3)))
+	if !a.probeSetattrCombinations(where, leaf, size) {
+		return false, ""
+	}
 	for _, create := range []bool{false, true} {
 		var nat virtual.Attributes
 		nd, s := leaf.VirtualOpenNamedAttributes(e.ctx, create, maskCompare, &nat)
@@ -992,6 +995,88 @@ func (a *action) probeLeaf(where string, leaf virtual.Leaf, data []byte) (bool, 
 		return false, ""
 	}
 	return true, panicked
+}
+
+// probeSetattrCombinations issues single SETATTR requests that carry several
+// attributes at once, as FUSE (FATTR_MODE|FATTR_SIZE|...) and NFSv4 SETATTR
+// do: every combination of {permissions, size 0/smaller/equal/larger, owner,
+// group} with modification/access times mixed in. A request that contains a
+// size other than the current one is a truncate/extend and has to be refused
+// whatever else it carries; so has one that changes the owner or group of
+// the shared, stateless file. Permissions alone (tolerated chmod) and a size
+// equal to the current one are not judged. Contents and attributes are
+// compared by the caller afterwards.
+func (a *action) probeSetattrCombinations(where string, leaf virtual.Leaf, size int) bool {
+	e := a.c.e
+	type sizeOpt struct {
+		name string
+		set  bool
+		v    uint64
+	}
+	sizes := []sizeOpt{{"zero", true, 0}, {"smaller", true, uint64(size / 2)}, {"larger", true, uint64(size) + 1 + uint64(a.rng.IntN(5000))}, {"equal", true, uint64(size)}, {"none", false, 0}}
+	stamp := e.clock.Now()
+	n := 0
+	for _, withPerm := range []bool{false, true} {
+		for _, so := range sizes {
+			for _, withOwner := range []bool{false, true} {
+				for _, withGroup := range []bool{false, true} {
+					if !withPerm && !so.set && !withOwner && !withGroup {
+						continue
+					}
+					in := &virtual.Attributes{}
+					fields := ""
+					if withPerm {
+						perm := virtual.PermissionsRead
+						if a.rng.IntN(2) == 0 {
+							perm |= virtual.PermissionsWrite
+						}
+						if a.rng.IntN(2) == 0 {
+							perm |= virtual.PermissionsExecute
+						}
+						in.SetPermissions(perm)
+						fields += "+permissions"
+					}
+					if so.set {
+						in.SetSizeBytes(so.v)
+						fields += "+size-" + so.name
+					}
+					if withOwner {
+						in.SetOwnerUserID(uint32(a.rng.IntN(3)))
+						fields += "+owner"
+					}
+					if withGroup {
+						in.SetOwnerGroupID(uint32(a.rng.IntN(3)))
+						fields += "+group"
+					}
+					// Times ride along without being part of the verdict.
+					if a.rng.IntN(3) == 0 {
+						in.SetLastDataModificationTime(stamp)
+					}
+					if a.rng.IntN(3) == 0 {
+						in.SetLastAccessTime(stamp)
+					}
+					var out virtual.Attributes
+					s := leaf.VirtualSetAttributes(e.ctx, in, maskCompare, &out)
+					n++
+					changesSize := so.set && so.v != uint64(size)
+					if s == virtual.StatusOK && (changesSize || withOwner || withGroup) {
+						what := "size"
+						if !changesSize {
+							what = "ownership"
+						}
+						a.h("probe-setattr-combination", fields+":"+statusName(s))
+						a.violate("immutability cas-file-accepted attempt=setattr-combination changes="+what+" fields="+fields,
+							fmt.Sprintf("%s: one VirtualSetAttributes carrying {%s} on a CAS-backed file (%d bytes) returned OK", where, fields[1:], size),
+							map[string]any{"path": where, "attempt": "setattr-combination", "fields": fields[1:], "requested_size": so.v, "current_size": size})
+						return false
+					}
+				}
+			}
+		}
+	}
+	a.h("probe-setattr-combinations", n)
+	a.c.situation("immutability-probed-setattr-combination")
+	return true
 }
 
 // probeApply drives every VirtualApply() operation against a CAS-backed
